@@ -363,6 +363,25 @@ type result struct {
 	Cell    interface{} `json:"cell,omitempty"`
 }
 
+// twinA and twinB declare a local type of the same name each: both print as "main.Rec", the fields stand at different positions
+func twinA(n int64, s string) interface{} {
+	type Rec struct {
+		N   int64
+		S   string
+		Pad int64
+	}
+	return &Rec{N: n, S: s, Pad: 55}
+}
+
+func twinB(n int64, s string) interface{} {
+	type Rec struct {
+		Pad int64
+		S   string
+		N   int64
+	}
+	return &Rec{N: n, S: s, Pad: 55}
+}
+
 func exec(text string, setup func(dc *context.DataContext)) (map[string]interface{}, error, interface{}) {
 	dc := context.NewDataContext()
 	setup(dc)
@@ -553,9 +572,17 @@ func runCell(c *Cell) []result {
 				outs = append(outs, reflect.TypeOf(""))
 			}
 			ft := reflect.FuncOf([]reflect.Type{reflect.TypeOf(int64(0)), pt, reflect.TypeOf("")}, outs, false)
+			if c.Path == "funcrev" {
+				// f(s string, x K, n int) K: every argument is converted to its parameter's type, wherever it stands
+				ft = reflect.FuncOf([]reflect.Type{reflect.TypeOf(""), pt, reflect.TypeOf(int(0))}, outs, false)
+			}
 			var got []reflect.Value
 			fn = reflect.MakeFunc(ft, func(args []reflect.Value) []reflect.Value {
 				got = args
+				if c.Path == "funcrev" {
+					// same positions as the other forms for the checks below: (int, K, string)
+					got = []reflect.Value{reflect.ValueOf(args[2].Int()), args[1], args[0]}
+				}
 				if c.Path == "funcerr" {
 					// the Go convention (value, error) with a non-nil error: the rule still gets the first result
 					return []reflect.Value{args[1], reflect.ValueOf(fmt.Errorf("second result")).Convert(reflect.TypeOf((*error)(nil)).Elem())}
@@ -566,6 +593,9 @@ func runCell(c *Cell) []result {
 				return []reflect.Value{args[1]}
 			})
 			callText := "f(7, " + srcText + ", \"tail\")"
+			if c.Path == "funcrev" {
+				callText = "f(\"tail\", " + srcText + ", 7)"
+			}
 			hold := &Holder{F: fn.Interface(), In: &HolderIn{}}
 			curFn = fn
 			vh := VHolder{Tag: 5}
@@ -707,6 +737,57 @@ func runCell(c *Cell) []result {
 				continue
 			}
 			out = append(out, result{Ev: "case", OK: true})
+		case "twin":
+			// two types that print alike (both "main.Rec") with the same field names at different positions
+			n1, n2 := int64(100+r.Intn(100)), int64(300+r.Intn(100))
+			objs := []interface{}{twinA(n1, "sa"), twinB(n2, "sb")}
+			fld, lit := "N", "7"
+			if c.Kind == "string" {
+				fld, lit = "S", "\"w\""
+			}
+			bad := false
+			for k, o := range objs {
+				var text string
+				if c.Path == "read" {
+					text = fmt.Sprintf("rule \"r\" begin\n  return rec.%s\nend\n", fld)
+				} else {
+					text = fmt.Sprintf("rule \"r\" begin\n  rec.%s = %s\n  return rec.%s\nend\n", fld, lit, fld)
+				}
+				res, err, pv := exec(text, func(dc *context.DataContext) { dc.Add("rec", o) })
+				if pv != nil || err != nil {
+					fail("twin-fails", fmt.Sprint(pv, err), text)
+					bad = true
+					break
+				}
+				ov := reflect.ValueOf(o).Elem()
+				var want interface{}
+				if c.Kind == "string" {
+					want = []string{"sa", "sb"}[k]
+					if c.Path == "store" {
+						want = "w"
+					}
+				} else {
+					want = []int64{n1, n2}[k]
+					if c.Path == "store" {
+						want = int64(7)
+					}
+				}
+				// the other fields of the object keep their values, the named one holds `want`
+				okf := reflect.DeepEqual(ov.FieldByName(fld).Interface(), want) && reflect.DeepEqual(res["r"], want)
+				if c.Kind == "string" {
+					okf = okf && ov.FieldByName("N").Int() == []int64{n1, n2}[k] && ov.FieldByName("Pad").Int() == 55
+				} else {
+					okf = okf && ov.FieldByName("S").String() == []string{"sa", "sb"}[k] && ov.FieldByName("Pad").Int() == 55
+				}
+				if !okf {
+					fail("twin-wrong-field", fmt.Sprintf("object %d of type %s: rule got %#v, object now %#v, expected field %s = %#v", k, ov.Type(), res["r"], ov.Interface(), fld, want), text)
+					bad = true
+					break
+				}
+			}
+			if !bad {
+				out = append(out, result{Ev: "case", OK: true})
+			}
 		case "shadow":
 			// a name that is injected always refers to the injected object, even if a local of that name is assigned
 			before := w.snap()
